@@ -31,6 +31,7 @@ type Env struct {
 	atIdx    int
 	argVals  map[string]ssa.Value // at a call site: contract parameter name -> actual argument
 	nowSt    *State               // inside old(...): the current state (for now(...))
+	inTrigger bool                // translating an explicit trigger: plain heap reads only
 }
 
 func (vc *VC) newEnv(st, old *State) *Env {
@@ -281,6 +282,13 @@ func (vc *VC) trIdent(name string, env *Env) TV {
 			return TV{T: types.Typ[types.Int], S: vc.envHeapRead(env, key, types.Typ[types.Int], "lnil")}
 		}
 	}
+	// visited0, visited1, ...: the set of keys produced so far by the n-th map range of the function
+	if strings.HasPrefix(name, "visited") && env.specHeap == nil {
+		key := "#iter" + name[len("visited"):]
+		if _, ok := vc.heapSort[key]; ok {
+			return TV{T: vc.heapElem[key], S: vc.envHeapRead(env, key, vc.heapElem[key], "lnil")}
+		}
+	}
 	// local variable through debug info
 	if env.specHeap == nil && vc.fn != nil {
 		if tv, ok := vc.localByName(name, env); ok {
@@ -517,7 +525,7 @@ func (vc *VC) fieldStep(a TV, i int, env *Env) TV {
 		key := fieldKey(u.Elem(), i)
 		cur := vc.envHeapRead(env, key, ft, a.S)
 		// a field written only during construction: objects that existed at entry still hold the entry value
-		if env.specHeap == nil && vc.entrySt != nil && env.st != vc.entrySt && vc.prog.fieldImmutable(key) {
+		if env.specHeap == nil && !env.inTrigger && vc.entrySt != nil && env.st != vc.entrySt && vc.prog.fieldImmutable(key) {
 			entry := vc.heapRead(vc.entrySt, key, ft, a.S)
 			if entry != cur {
 				vc.assumeNote("fields written only during construction keep their value (whole-module scan of stores on every run)")
@@ -848,7 +856,11 @@ func (vc *VC) trCall(x *ECall, env *Env) TV {
 				a = vc.coerceInt(a, nil)
 			}
 		}
-		return TV{T: a.T, S: ite(c, a.S, b.S)}
+		rt := a.T
+		if bt, ok := a.T.(*types.Basic); ok && bt.Kind() == types.UntypedNil {
+			rt = b.T
+		}
+		return TV{T: rt, S: ite(c, a.S, b.S)}
 	case "entry":
 		// entry(x): the value loop variable x has when the loop is first entered
 		id, ok := x.Args[0].(*EIdent)
@@ -997,7 +1009,13 @@ func (vc *VC) trCall(x *ECall, env *Env) TV {
 		if _, ok := a.T.Underlying().(*types.Slice); ok {
 			loc = sx("sbase", a.S)
 		}
-		return TV{T: B, S: sx(">=", sx("rt", loc), vc.entrySt.nextId)}
+		// relative to the state old() refers to: the function's entry in its own contract and
+		// invariants, the moment of the call where a callee's contract is applied
+		base := vc.entrySt.nextId
+		if env.old != nil && env.old.nextId != "" {
+			base = env.old.nextId
+		}
+		return TV{T: B, S: sx(">=", sx("rt", loc), base)}
 	case "sameslice":
 		a, b := vc.tr(x.Args[0], env), vc.tr(x.Args[1], env)
 		return TV{T: B, S: and(eq(sx("sbase", a.S), sx("sbase", b.S)), eq(sx("soff", a.S), sx("soff", b.S)), eq(sx("slen", a.S), sx("slen", b.S)))}
@@ -1106,13 +1124,35 @@ func (vc *VC) trQuant(x *EQuant, env *Env) TV {
 		q = "forall"
 	}
 	mine := e2.bound[len(e2.bound)-len(x.Vars):]
+	// explicit triggers given in the contract
+	if len(x.Triggers) > 0 {
+		var ps []string
+		for _, g := range x.Triggers {
+			var ts []string
+			for _, te := range g {
+				e3 := e2.child()
+				e3.inTrigger = true
+				t := vc.tr(te, e3).S
+				// has(m, k) on a Go map is (and (not (= m nil)) (select dom k)): the select is the trigger
+				if strings.HasPrefix(t, "(and (not (= ") {
+					parts := splitSexp(t[len("(and ") : len(t)-1])
+					if len(parts) == 2 {
+						t = parts[1]
+					}
+				}
+				ts = append(ts, t)
+			}
+			ps = append(ps, ":pattern ("+strings.Join(ts, " ")+")")
+		}
+		return TV{T: types.Typ[types.Bool], S: fmt.Sprintf("(%s (%s) (! %s %s))", q, strings.Join(binders, " "), body, strings.Join(ps, " "))}
+	}
 	// propagate pattern candidates to an enclosing quantifier
 	if env.pats != nil {
 		for _, p := range pats {
 			*env.pats = append(*env.pats, p)
 		}
 	}
-	if x.Forall {
+	if true {
 		// 1. re-index every bound variable that is used as a slice index base[off + k] by the absolute
 		//    element index, so that triggers are free of arithmetic
 		var cands []string
@@ -1121,6 +1161,27 @@ func (vc *VC) trQuant(x *EQuant, env *Env) TV {
 			if !seen[p] && !strings.Contains(p, "(forall") && !strings.Contains(p, "(exists") {
 				seen[p] = true
 				cands = append(cands, p)
+			}
+		}
+		// a single bound variable indexing several slices/heap versions: one equivalent copy of the
+		// formula per slice, each triggered by the arithmetic-free element term of that slice
+		if len(mine) == 1 {
+			var alts []string
+			for n := 0; n < 3; n++ {
+				nb, np, _, ok := vc.reindexVarN(mine[0], mine, body, cands, n)
+				if !ok {
+					break
+				}
+				alts = append(alts, fmt.Sprintf("(%s (%s) (! %s :pattern (%s)))", q, strings.Join(binders, " "), nb, np))
+			}
+			if len(alts) == 1 {
+				return TV{T: types.Typ[types.Bool], S: alts[0]}
+			}
+			if len(alts) > 1 {
+				if x.Forall {
+					return TV{T: types.Typ[types.Bool], S: "(and " + strings.Join(alts, " ") + ")"}
+				}
+				return TV{T: types.Typ[types.Bool], S: "(or " + strings.Join(alts, " ") + ")"}
 			}
 		}
 		trig := map[string]string{}
@@ -1146,7 +1207,7 @@ func (vc *VC) trQuant(x *EQuant, env *Env) TV {
 		}
 		if len(mine) == 1 {
 			if t, ok := trig[mine[0]]; ok {
-				return TV{T: types.Typ[types.Bool], S: fmt.Sprintf("(forall (%s) (! %s :pattern (%s)))", strings.Join(binders, " "), body, t)}
+				return TV{T: types.Typ[types.Bool], S: fmt.Sprintf("(%s (%s) (! %s :pattern (%s)))", q, strings.Join(binders, " "), body, t)}
 			}
 		}
 		if len(all) > 0 {
@@ -1154,7 +1215,7 @@ func (vc *VC) trQuant(x *EQuant, env *Env) TV {
 			for _, g := range all {
 				ps = append(ps, ":pattern ("+g+")")
 			}
-			return TV{T: types.Typ[types.Bool], S: fmt.Sprintf("(forall (%s) (! %s %s))", strings.Join(binders, " "), body, strings.Join(ps, " "))}
+			return TV{T: types.Typ[types.Bool], S: fmt.Sprintf("(%s (%s) (! %s %s))", q, strings.Join(binders, " "), body, strings.Join(ps, " "))}
 		}
 		var multi []string
 		for _, v := range mine {
@@ -1174,7 +1235,7 @@ func (vc *VC) trQuant(x *EQuant, env *Env) TV {
 			multi = append(multi, t)
 		}
 		if len(multi) > 0 {
-			return TV{T: types.Typ[types.Bool], S: fmt.Sprintf("(forall (%s) (! %s :pattern (%s)))", strings.Join(binders, " "), body, strings.Join(multi, " "))}
+			return TV{T: types.Typ[types.Bool], S: fmt.Sprintf("(%s (%s) (! %s :pattern (%s)))", q, strings.Join(binders, " "), body, strings.Join(multi, " "))}
 		}
 	}
 	return TV{T: types.Typ[types.Bool], S: fmt.Sprintf("(%s (%s) %s)", q, strings.Join(binders, " "), body)}
@@ -1273,6 +1334,12 @@ var _ = token.NoPos
 // bound variable, substitute k := (- k O) in the body and in all candidates; the candidate becomes
 // (select H (lelem B k)), which is returned as the trigger for k.
 func (vc *VC) reindexVar(k string, bound []string, body string, cands []string) (string, string, []string, bool) {
+	return vc.reindexVarN(k, bound, body, cands, 0)
+}
+
+// reindexVarN: as reindexVar, using the n-th viable candidate (distinct resulting triggers).
+func (vc *VC) reindexVarN(k string, bound []string, body string, cands []string, n int) (string, string, []string, bool) {
+	seenTrig := map[string]bool{}
 	add, sub := "+", "-"
 	if vc.ar.BV {
 		add, sub = "bvadd", "bvsub"
@@ -1320,6 +1387,13 @@ func (vc *VC) reindexVar(k string, bound []string, body string, cands []string) 
 		nb := fix(body)
 		np := "(select " + parts[0] + " (lelem " + le[0] + " " + k + "))"
 		if !strings.Contains(nb, np) {
+			continue
+		}
+		if seenTrig[np] {
+			continue
+		}
+		seenTrig[np] = true
+		if len(seenTrig)-1 < n {
 			continue
 		}
 		var nc []string
